@@ -234,6 +234,23 @@ func H_C04_race() {
 	base := vPut(g, "b", "dst", []byte("d"))
 	w := vNewRecorder()
 	var uerr error
+	if vChoice("conditional-request", 0, 1) == 1 {
+		// a DELETE conditioned on the old generation: it either removes the old object (the upload then
+		// re-creates it) or is refused because the upload came first - the upload's object always survives
+		vGo(func() {
+			g.handleGcsDelete(vCtx(), w, "b", "dst", cloudstorage.Conditions{GenerationMatch: base.Generation})
+		})
+		vGo(func() {
+			_, uerr = g.finishUpload(vCtx(), dontNeedUrls, &storage.Object{Bucket: "b", Name: "dst"}, []byte("U"), "b", emptyConds)
+		})
+		vJoin()
+		vAssert(uerr == nil, "race:unconditional-upload-ok")
+		vAssert(w.code == http.StatusNoContent || w.code == http.StatusPreconditionFailed, "race:delete-ok-or-412")
+		st := vSnap(g, "b", "dst")
+		vAssert(st.exists && string(st.content) == "U", "race:a-delete-conditioned-on-the-old-generation-never-removes-the-newer-upload")
+		vReach("c04-race")
+		return
+	}
 	vGo(func() {
 		r := &http.Request{Body: &vBody{decode: func(v interface{}) error {
 			req := v.(*storage.ComposeRequest)
